@@ -1,1 +1,375 @@
 //! Hooks owned by property C20 (feature `verif-hooks`).
+//!
+//!  * [`mem_run`]: a sequence of operations on the evaluator's [`Memory`],
+//!    each one run under `catch_unwind` (a panic is the evaluator's loud
+//!    stop), reported as plain data.
+//!  * [`Lir::eval_main_perturbed`]: evaluate `main` on lowered IR that was
+//!    perturbed in place (the branch table of every `Switch` reordered, one
+//!    pointer offset or one read width pushed past the end of its stack
+//!    slot); the IR is restored afterwards, so that the very same lowered
+//!    program can still be handed to the code generator.
+
+use std::panic::{AssertUnwindSafe, catch_unwind};
+
+use super::core::{HookVal, Lir};
+use crate::lir::{
+    Instruction, IrType, IrValue, Memory, Operand, ValueOrSlot, Var,
+};
+
+/// One operation on the evaluator's memory. Pointers are the indices the
+/// evaluator hands out.
+#[derive(Clone, Debug, PartialEq)]
+pub enum MemOp {
+    Allocate(usize),
+    PushFrame,
+    PopFrame,
+    OffsetBy(usize, usize),
+    Read(usize, usize),
+    Write(usize, Vec<u8>),
+    Copy(usize, usize, usize),
+}
+
+#[derive(Clone, Debug, PartialEq)]
+pub enum MemOut {
+    Ptr(usize),
+    Bytes(Vec<u8>),
+    Unit,
+    Popped(bool),
+    Panic(String),
+}
+
+fn msg(e: Box<dyn std::any::Any + Send>) -> String {
+    if let Some(s) = e.downcast_ref::<String>() {
+        s.clone()
+    } else if let Some(s) = e.downcast_ref::<&str>() {
+        s.to_string()
+    } else {
+        "panic".to_string()
+    }
+}
+
+/// Run `ops` on a fresh [`Memory`]. An operation that panics leaves the
+/// memory as it was (every check precedes the mutation) and the run goes on.
+pub fn mem_run(ops: &[MemOp]) -> Vec<MemOut> {
+    let mut mem = Memory::new();
+    let mut out = Vec::new();
+    for op in ops {
+        let r = catch_unwind(AssertUnwindSafe(|| match op {
+            MemOp::Allocate(n) => MemOut::Ptr(mem.allocate(*n)),
+            MemOp::PushFrame => {
+                mem.verif_push_frame();
+                MemOut::Unit
+            }
+            MemOp::PopFrame => MemOut::Popped(mem.verif_pop_frame()),
+            MemOp::OffsetBy(p, o) => MemOut::Ptr(mem.verif_offset_by(*p, *o)),
+            MemOp::Read(p, n) => MemOut::Bytes(mem.read_slice(*p, *n).to_vec()),
+            MemOp::Write(p, b) => {
+                mem.write(*p, b);
+                MemOut::Unit
+            }
+            MemOp::Copy(to, from, n) => {
+                mem.verif_copy(*to, *from, *n);
+                MemOut::Unit
+            }
+        }));
+        out.push(match r {
+            Ok(o) => o,
+            Err(e) => MemOut::Panic(msg(e)),
+        });
+    }
+    out
+}
+
+/// How to perturb the lowered IR before evaluating it.
+#[derive(Clone, Debug, PartialEq)]
+pub enum Perturb {
+    None,
+    /// Reorder the branch table of every `Switch`: 0 = ascending by key,
+    /// 1 = descending by key, 2 = rotate left by one, 3 = swap the first two
+    /// entries, 4 = ascending with the odd positions first.
+    SwitchOrder(u8),
+    /// The `nth` access of [`Lir::oob_sites`] is moved or widened so that it
+    /// ends past the end of its stack slot.
+    Oob(usize),
+}
+
+/// A memory access of `main` whose base is a stack slot of known size.
+#[derive(Clone, Debug, PartialEq)]
+pub struct OobSite {
+    /// `offset`: an `Offset` from a stack-slot variable whose result is
+    /// read or written in the same block; `widen`: a `Read` directly from a
+    /// stack-slot variable.
+    pub kind: &'static str,
+    pub slot_size: usize,
+    pub access_size: usize,
+    pub old_offset: usize,
+    /// the offset / access size after the perturbation
+    pub new_offset: usize,
+    pub new_access_size: usize,
+    /// the access is in the entry block of `main` (always executed when
+    /// `main` is straight-line code)
+    pub in_entry_block: bool,
+    /// number of blocks of `main`
+    pub blocks: usize,
+}
+
+fn wider(ty: &IrType, than: usize) -> Option<IrType> {
+    [IrType::U8, IrType::U16, IrType::U32, IrType::U64]
+        .into_iter()
+        .find(|t| t.bytes() > than && t.bytes() > ty.bytes())
+}
+
+fn place(op: &Operand) -> Option<&Var> {
+    match op {
+        Operand::Place(v) => Some(v),
+        Operand::Value(_) => None,
+    }
+}
+
+/// (block index, instruction index, site) of every candidate in `pkg.main`
+fn sites(lir: &mut Lir<'_>) -> Vec<(usize, usize, OobSite)> {
+    let items = lir.inner_mut().verif_c20_items_mut();
+    let Some(main) = items.iter().find(|f| f.name.as_str() == "pkg.main")
+    else {
+        return Vec::new();
+    };
+    let slot = |v: &Var| {
+        main.variables.iter().find_map(|(x, s)| match s {
+            ValueOrSlot::StackSlot(l) if x == v => Some(l.size()),
+            _ => None,
+        })
+    };
+    let mut out = Vec::new();
+    for (bi, b) in main.blocks.iter().enumerate() {
+        let entry = b.label == main.entry_block;
+        for (ii, ins) in b.instructions.iter().enumerate() {
+            match ins {
+                Instruction::Offset { to, from, offset } => {
+                    let Some(size) = place(from).and_then(slot) else {
+                        continue;
+                    };
+                    // the first access through `to` later in this block
+                    let access = b.instructions[ii + 1..].iter().find_map(
+                        |i| match i {
+                            Instruction::Read { from, ty, .. }
+                                if place(from) == Some(to) =>
+                            {
+                                Some(ty.bytes())
+                            }
+                            Instruction::Write { to: t, val }
+                                if place(t) == Some(to) =>
+                            {
+                                match val {
+                                    Operand::Value(v) => {
+                                        Some(v.as_vec().len())
+                                    }
+                                    Operand::Place(_) => None,
+                                }
+                            }
+                            _ => None,
+                        },
+                    );
+                    let Some(access) = access else { continue };
+                    if access == 0 {
+                        continue;
+                    }
+                    // the last aligned position whose access does not fit
+                    let new_offset = (size / access) * access;
+                    out.push((
+                        bi,
+                        ii,
+                        OobSite {
+                            kind: "offset",
+                            slot_size: size,
+                            access_size: access,
+                            old_offset: *offset as usize,
+                            new_offset,
+                            new_access_size: access,
+                            in_entry_block: entry,
+                            blocks: main.blocks.len(),
+                        },
+                    ));
+                }
+                Instruction::Read { from, ty, .. } => {
+                    let Some(size) = place(from).and_then(slot) else {
+                        continue;
+                    };
+                    let Some(w) = wider(ty, size) else { continue };
+                    out.push((
+                        bi,
+                        ii,
+                        OobSite {
+                            kind: "widen",
+                            slot_size: size,
+                            access_size: ty.bytes(),
+                            old_offset: 0,
+                            new_offset: 0,
+                            new_access_size: w.bytes(),
+                            in_entry_block: entry,
+                            blocks: main.blocks.len(),
+                        },
+                    ));
+                }
+                _ => {}
+            }
+        }
+    }
+    out
+}
+
+impl Lir<'_> {
+    /// The accesses of `main` that [`Perturb::Oob`] can push out of bounds.
+    pub fn oob_sites(&mut self) -> Vec<OobSite> {
+        sites(self).into_iter().map(|x| x.2).collect()
+    }
+
+    /// The branch tables (keys only) of every `Switch` of the program, in
+    /// the order the lowerer produced them.
+    pub fn switch_tables(&mut self) -> Vec<Vec<usize>> {
+        let items = self.inner_mut().verif_c20_items_mut();
+        let mut out = Vec::new();
+        for i in items
+            .iter()
+            .flat_map(|f| &f.blocks)
+            .flat_map(|b| &b.instructions)
+        {
+            if let Instruction::Switch { branches, .. } = i {
+                out.push(branches.iter().map(|b| b.0).collect());
+            }
+        }
+        out
+    }
+
+    /// Evaluate `main` on the perturbed IR; the IR is restored afterwards.
+    pub fn eval_main_perturbed(
+        &mut self,
+        args: &[HookVal],
+        perturb: &Perturb,
+    ) -> Result<Option<HookVal>, String> {
+        // apply, remembering how to undo
+        let mut undo: Vec<(usize, usize, usize, Instruction)> = Vec::new();
+        match perturb {
+            Perturb::None => {}
+            Perturb::SwitchOrder(mode) => {
+                let items = self.inner_mut().verif_c20_items_mut();
+                for (fi, f) in items.iter_mut().enumerate() {
+                    for (bi, b) in f.blocks.iter_mut().enumerate() {
+                        for (ii, ins) in b.instructions.iter_mut().enumerate()
+                        {
+                            let old = ins.clone();
+                            if let Instruction::Switch { branches, .. } = ins
+                            {
+                                if branches.len() < 2 {
+                                    continue;
+                                }
+                                match mode {
+                                    0 => branches.sort_by_key(|b| b.0),
+                                    1 => {
+                                        branches.sort_by_key(|b| b.0);
+                                        branches.reverse();
+                                    }
+                                    2 => branches.rotate_left(1),
+                                    3 => branches.swap(0, 1),
+                                    _ => {
+                                        branches.sort_by_key(|b| b.0);
+                                        let (mut odd, mut even) =
+                                            (Vec::new(), Vec::new());
+                                        for (k, b) in
+                                            branches.drain(..).enumerate()
+                                        {
+                                            if k % 2 == 1 {
+                                                odd.push(b)
+                                            } else {
+                                                even.push(b)
+                                            }
+                                        }
+                                        branches.extend(odd);
+                                        branches.extend(even);
+                                    }
+                                }
+                                undo.push((fi, bi, ii, old));
+                            }
+                        }
+                    }
+                }
+            }
+            Perturb::Oob(nth) => {
+                let all = sites(self);
+                let Some((bi, ii, site)) = all.into_iter().nth(*nth) else {
+                    return Err("no such site".into());
+                };
+                let items = self.inner_mut().verif_c20_items_mut();
+                let fi = items
+                    .iter()
+                    .position(|f| f.name.as_str() == "pkg.main")
+                    .unwrap();
+                let ins = &mut items[fi].blocks[bi].instructions[ii];
+                undo.push((fi, bi, ii, ins.clone()));
+                match ins {
+                    Instruction::Offset { offset, .. } => {
+                        *offset = site.new_offset as u32
+                    }
+                    Instruction::Read { ty, .. } => {
+                        *ty = wider(ty, site.slot_size).unwrap()
+                    }
+                    _ => unreachable!(),
+                }
+            }
+        }
+
+        let args: Vec<IrValue> = args.iter().map(hook_to_ir).collect();
+        let res = catch_unwind(AssertUnwindSafe(|| {
+            let mut mem = Memory::new();
+            let ctx = IrValue::Pointer(mem.allocate(0));
+            self.inner_mut().eval(&mut mem, ctx, args)
+        }));
+
+        let items = self.inner_mut().verif_c20_items_mut();
+        for (fi, bi, ii, old) in undo {
+            items[fi].blocks[bi].instructions[ii] = old;
+        }
+
+        match res {
+            Ok(v) => Ok(v.as_ref().map(ir_to_hook)),
+            Err(e) => Err(msg(e)),
+        }
+    }
+}
+
+fn hook_to_ir(v: &HookVal) -> IrValue {
+    match *v {
+        HookVal::Bool(x) => IrValue::Bool(x),
+        HookVal::U8(x) => IrValue::U8(x),
+        HookVal::U16(x) => IrValue::U16(x),
+        HookVal::U32(x) => IrValue::U32(x),
+        HookVal::U64(x) => IrValue::U64(x),
+        HookVal::I8(x) => IrValue::I8(x),
+        HookVal::I16(x) => IrValue::I16(x),
+        HookVal::I32(x) => IrValue::I32(x),
+        HookVal::I64(x) => IrValue::I64(x),
+        HookVal::F32(x) => IrValue::F32(f32::from_bits(x)),
+        HookVal::F64(x) => IrValue::F64(f64::from_bits(x)),
+        HookVal::Char(x) => IrValue::Char(char::from_u32(x).unwrap()),
+        HookVal::Asn(x) => IrValue::Asn(inetnum::asn::Asn::from_u32(x)),
+        HookVal::Pointer(x) => IrValue::Pointer(x),
+    }
+}
+
+fn ir_to_hook(v: &IrValue) -> HookVal {
+    match v {
+        IrValue::Bool(x) => HookVal::Bool(*x),
+        IrValue::U8(x) => HookVal::U8(*x),
+        IrValue::U16(x) => HookVal::U16(*x),
+        IrValue::U32(x) => HookVal::U32(*x),
+        IrValue::U64(x) => HookVal::U64(*x),
+        IrValue::I8(x) => HookVal::I8(*x),
+        IrValue::I16(x) => HookVal::I16(*x),
+        IrValue::I32(x) => HookVal::I32(*x),
+        IrValue::I64(x) => HookVal::I64(*x),
+        IrValue::F32(x) => HookVal::F32(x.to_bits()),
+        IrValue::F64(x) => HookVal::F64(x.to_bits()),
+        IrValue::Char(x) => HookVal::Char(*x as u32),
+        IrValue::Asn(x) => HookVal::Asn(x.into_u32()),
+        IrValue::Pointer(x) => HookVal::Pointer(*x),
+    }
+}
